@@ -4,6 +4,8 @@ import (
 	"fmt"
 	"go/ast"
 	"go/token"
+	"os"
+	"path/filepath"
 	"strings"
 )
 
@@ -233,5 +235,151 @@ func extractC19(c *Ctx) error {
 	}
 	c.P("Definition count_tx_body : string := %s.", CoqStr(cts))
 	c.Info("next_conds", conds(nx))
+
+	// ---- second round: the rest of the API, the configuration, the wiring ----
+	flat := func(n ast.Node) string { return strings.Join(strings.Fields(c.Src(n)), " ") }
+	// every exported function / method of package app/mempool: a new one must be modelled (or consciously listed)
+	files, err := c.ParseDir("app/mempool")
+	if err != nil {
+		return err
+	}
+	api := map[string]bool{}
+	for _, ff := range files {
+		if strings.HasPrefix(filepath.Base(c.Fset.Position(ff.Pos()).Filename), "verif_hooks") {
+			continue
+		}
+		for _, d := range ff.Decls {
+			fn, ok := d.(*ast.FuncDecl)
+			if !ok || !fn.Name.IsExported() {
+				continue
+			}
+			name := fn.Name.Name
+			if fn.Recv != nil && len(fn.Recv.List) == 1 {
+				r := c.Src(fn.Recv.List[0].Type)
+				r = strings.TrimPrefix(r, "*")
+				if i := strings.Index(r, "["); i >= 0 {
+					r = r[:i]
+				}
+				name = r + "." + name
+			}
+			api[name] = true
+		}
+	}
+	c.P("Definition exported_api : list string := %s.", CoqStrList(SortedSet(api)))
+	c.Info("exported_api", SortedSet(api))
+
+	nst := FindFunc(f, "PriorityNonceMempool", "NextSenderTx")
+	rm := FindFunc(f, "PriorityNonceMempool", "Remove")
+	sel := FindFunc(f, "PriorityNonceMempool", "Select")
+	ie := FindFunc(f, "", "IsEmpty")
+	txf := FindFunc(f, "PriorityNonceIterator", "Tx")
+	dcfg := FindFunc(f, "", "DefaultPriorityNonceMempoolConfig")
+	dmp := FindFunc(f, "", "DefaultPriorityMempool")
+	if nst == nil || rm == nil || sel == nil || ie == nil || txf == nil || dcfg == nil || dmp == nil {
+		return fmt.Errorf("NextSenderTx / Remove / Select / IsEmpty / Tx / DefaultPriorityNonceMempoolConfig / DefaultPriorityMempool not found")
+	}
+	c.P("Definition next_sender_tx_conds : list string := %s.", CoqStrList(conds(nst)))
+	c.P("Definition insert_conds : list string := %s.", CoqStrList(conds(ins)))
+	c.P("Definition remove_conds : list string := %s.", CoqStrList(conds(rm)))
+	c.P("Definition select_conds : list string := %s.", CoqStrList(conds(sel)))
+	c.P("Definition is_empty_conds : list string := %s.", CoqStrList(conds(ie)))
+	// the effects of Insert / Remove / reorderPriorityTies: every assignment, ++/--, delete and index call, in source order
+	effects := func(fd *ast.FuncDecl) []string {
+		var out []string
+		ast.Inspect(fd.Body, func(n ast.Node) bool {
+			switch s := n.(type) {
+			case *ast.FuncLit:
+				return false
+			case *ast.AssignStmt:
+				out = append(out, flat(s))
+			case *ast.IncDecStmt:
+				out = append(out, flat(s))
+			case *ast.ExprStmt:
+				out = append(out, flat(s))
+			case *ast.ReturnStmt:
+				out = append(out, flat(s))
+			}
+			return true
+		})
+		return out
+	}
+	c.P("Definition insert_effects : list string := %s.", CoqStrList(effects(ins)))
+	c.P("Definition remove_effects : list string := %s.", CoqStrList(effects(rm)))
+	c.P("Definition reorder_effects : list string := %s.", CoqStrList(effects(ro)))
+	c.P("Definition select_effects : list string := %s.", CoqStrList(effects(sel)))
+	c.P("Definition next_sender_tx_effects : list string := %s.", CoqStrList(effects(nst)))
+	c.P("Definition tx_effects : list string := %s.", CoqStrList(effects(txf)))
+	// OnRead: a configuration field; which functions use it
+	var onRead []string
+	for _, d := range f.Decls {
+		fn, ok := d.(*ast.FuncDecl)
+		if !ok || fn.Body == nil {
+			continue
+		}
+		ast.Inspect(fn.Body, func(n ast.Node) bool {
+			if se, ok := n.(*ast.SelectorExpr); ok && se.Sel.Name == "OnRead" {
+				onRead = append(onRead, fn.Name.Name)
+			}
+			return true
+		})
+	}
+	c.P("Definition on_read_uses : list string := %s.", CoqStrList(onRead))
+	// the configuration the application installs
+	c.P("Definition default_config_body : list string := %s.", CoqStrList(effects(dcfg)))
+	c.P("Definition default_mempool_body : list string := %s.", CoqStrList(effects(dmp)))
+	// the config struct's fields (a new knob must be modelled)
+	var cfgFields []string
+	ast.Inspect(f, func(n ast.Node) bool {
+		ts, ok := n.(*ast.TypeSpec)
+		if !ok || ts.Name.Name != "PriorityNonceMempoolConfig" {
+			return true
+		}
+		if st, ok := ts.Type.(*ast.StructType); ok {
+			for _, fl := range st.Fields.List {
+				for _, nm := range fl.Names {
+					cfgFields = append(cfgFields, nm.Name+" "+flat(fl.Type))
+				}
+			}
+		}
+		return false
+	})
+	c.P("Definition config_fields : list string := %s.", CoqStrList(cfgFields))
+
+	// app/app.go: every statement that mentions the mempool or the proposal handlers, in order
+	af, err := c.Parse("app/app.go")
+	if err != nil {
+		return err
+	}
+	newFn := FindFunc(af, "", "New")
+	if newFn == nil {
+		return fmt.Errorf("app.New not found")
+	}
+	var wiring []string
+	for _, st := range newFn.Body.List {
+		src := flat(st)
+		low := strings.ToLower(src)
+		if len(src) < 300 && (strings.Contains(low, "mempool") || strings.Contains(low, "proposal") || strings.Contains(src, "baseapp.NewBaseApp(")) &&
+			!strings.Contains(low, "gov") {
+			wiring = append(wiring, src)
+		}
+	}
+	c.P("Definition app_wiring : list string := %s.", CoqStrList(wiring))
+	c.Info("app_wiring", wiring)
+	// the pinned libraries the model trusts
+	gm, err := os.ReadFile(filepath.Join(c.Repo, "go.mod"))
+	if err != nil {
+		return err
+	}
+	var pins []string
+	for _, line := range strings.Split(string(gm), "\n") {
+		fs := strings.Fields(line)
+		for _, mod := range []string{"github.com/cosmos/cosmos-sdk", "github.com/huandu/skiplist", "github.com/cometbft/cometbft"} {
+			if (len(fs) == 2 && fs[0] == mod) || (len(fs) >= 3 && fs[0] == "require" && fs[1] == mod) || (len(fs) >= 4 && fs[0] == mod && fs[1] == "=>") ||
+				(len(fs) >= 5 && fs[0] == "replace" && fs[1] == mod) {
+				pins = append(pins, strings.Join(fs, " "))
+			}
+		}
+	}
+	c.P("Definition library_pins : list string := %s.", CoqStrList(pins))
 	return nil
 }
